@@ -30,3 +30,16 @@ Definition insert_tie (d10 d11 : dump) (ins root : N) (dms : list N) (dm_new res
       end
   | _, _, _ => false
   end.
+
+(* Load-time KEEP_STRUCTURE level merging (model: Restrict.keep_structure, by the C08 builder):
+   phase-4 raw tree vs phase-5 tree. [dm] = dump ids of the Groups that have dont_merge set. *)
+From HV Require Import Topo.Restrict.
+Definition merge_agrees (d4 d5 : dump) (dm : list N) : bool :=
+  match tree_of_dump d4, tree_of_dump d5 with
+  | Some t4, Some t5 =>
+      match keep_structure (t_filters d4) dm t4 with
+      | Some r => shape_eqb (shape_of r) (shape_of t5)
+      | None => false
+      end
+  | _, _ => false
+  end.
